@@ -197,7 +197,10 @@ func (g *Gen) apply(live []*Rec) Op {
 	default:
 		op.Account, cl = "", cl+"acc-default"
 	}
-	op.PK, op.VRF = "00010203", "04050607"
+	// keys differ from apply to apply, so that a re-registered id carries new keys
+	kb := make([]byte, 8)
+	g.rng.Read(kb)
+	op.PK, op.VRF = hx(kb[:4]), hx(kb[4:])
 	switch s := g.pick(100); {
 	case s < 3:
 		op.PK, cl = "", cl+",pk-empty"
